@@ -357,3 +357,47 @@ def _c16_scan(case, obs):
             if any(d[0] != "descriptor" for d in docs):
                 fail(i, "configure emitted something else than descriptors")
     return why, stale_ops, bad
+
+
+def c15_multi(case, obs):
+    """Several runs open at once: a checkpoint must be refused while ANY run is between create and save, whatever
+    run key the message carries; a configure while the run it belongs to is.  Each run's own bundle contents
+    are checked by c15 on the sub-sequence of that run."""
+    bundling = {k: False for k in case["keys"]}      # True / False / None (unknown)
+    for i, ((k, op), o) in enumerate(zip(case["mops"], obs)):
+        kind, res, docs = op[0], o["res"], o["docs"]
+        where = "op %d %s (run key %d): " % (i, kind, k)
+        if kind == "checkpoint":
+            open_in = [r for r, b in bundling.items() if b is True]
+            if open_in and (res != "IllegalMessageSequence" or docs):
+                return where + "checkpoint accepted (%s) while run %d has a bundle open" % (res, open_in[0])
+            if all(b is False for b in bundling.values()) and res != "ok":
+                return where + "checkpoint refused (%s) although no run has a bundle open" % res
+        elif kind == "configure":
+            if bundling.get(k) is True and (res != "IllegalMessageSequence" or docs or o["calls"]):
+                return where + "configure accepted (%s) while its run has a bundle open" % res
+        elif k in bundling:
+            if kind == "create":
+                if bundling[k] is True:
+                    if res != "IllegalMessageSequence":
+                        return where + "second create accepted"
+                elif res == "ok":
+                    bundling[k] = True
+                else:
+                    bundling[k] = None
+            elif kind in ("save", "drop"):
+                if bundling[k] is False:
+                    if res != "IllegalMessageSequence":
+                        return where + "%s without an open bundle accepted" % kind
+                elif bundling[k] is True:
+                    bundling[k] = False
+                else:
+                    bundling[k] = False if res == "ok" else None
+            elif kind == "rewind":
+                bundling[k] = False
+    for k in case["keys"]:           # each run on its own
+        sub = [(op, o) for (kk, op), o in zip(case["mops"], obs) if kk == k and op[0] not in ("checkpoint", "configure")]
+        why = c15({"devs": case["devs"], "ops": [x[0] for x in sub]}, [x[1] for x in sub])
+        if why:
+            return "run key %d: %s" % (k, why)
+    return None
